@@ -404,22 +404,13 @@ func escText(s string) string {
 // they are generated as before and must round-trip now; a recurrence is a plain violation)
 // (c18-long-precision and the panics on `type` look-alikes were repaired by the UseNumber /
 // checked-assertions fix: Long values of any size must round-trip, and a panic is a plain violation)
-var tagOrder = []string{"c18-type-member", "c18-go-quote",
-	"c18-key-unescaped", "c18-double-nonfinite", "c18-date-range"}
+// (c18-go-quote and c18-key-unescaped were repaired by the JSON-string-literal fix: strings with
+// control characters / non-printable runes and keys with quotes, backslashes, control characters
+// are generated as before and must round-trip now)
+var tagOrder = []string{"c18-type-member", "c18-double-nonfinite", "c18-date-range"}
 
 var rtagOrder = []string{"c18-rebuild-text-empty-node", "c18-rebuild-tree-root", "c18-rebuild-tree-empty-text",
 	"c18-rebuild-dedup-registers"}
-
-// goOnlyEscape: strconv.Quote renders the rune with an escape JSON does not know.
-func goOnlyEscape(s string) bool {
-	for _, r := range s {
-		q := strconv.Quote(string(r))
-		if strings.HasPrefix(q, `"\a`) || strings.HasPrefix(q, `"\v`) || strings.HasPrefix(q, `"\x`) || strings.HasPrefix(q, `"\U`) {
-			return true
-		}
-	}
-	return false
-}
 
 // knownOnce: a known finding is written to oracle.txt once per tag and run (check.py looks at the
 // first 50 oracle lines of a run only); every occurrence is counted in the distribution.
@@ -435,19 +426,9 @@ func (c *Ctx) Known(tag, format string, a ...any) {
 
 type classifier struct{ tags map[string]bool }
 
-func (c *classifier) qstr(s string) {
-	if goOnlyEscape(s) {
-		c.tags["c18-go-quote"] = true
-	}
-}
+func (c *classifier) qstr(s string) {}
 
-func (c *classifier) key(s string) {
-	for _, r := range s {
-		if r == '"' || r == '\\' || r < 0x20 {
-			c.tags["c18-key-unescaped"] = true
-		}
-	}
-}
+func (c *classifier) key(s string) {}
 
 func (c *classifier) attrs(m map[string]string) {
 	for k, v := range m {
